@@ -16,6 +16,15 @@ feature cross, ragged / mixed-type list columns, Key.Literal inputs, tuple / nam
 / ndarray results). A failure there gets the stable mechanism key of its input class
 (`c02_ext.classify_raise` / `classify_diffs` / `typed_diffs`), decided from the
 structure of the case and the form of the failure, never from a seed or a message alone.
+
+A further share of the cases builds the same kind of pipeline as a CHAIN of 2-3
+separately constructed blocks (`vlib/oracles/c02_chain.py`): every block has its own
+aggregates and declares a random subset of the case's slicers, consecutive blocks of
+one name are fused by `chain()`, other names start a new stage. Every block's sliced
+and unsliced values are compared with the same brute force. The input class 'a slicer
+declared by two blocks of one fused group' has the mechanism key
+`fused-chain-duplicate-slicers-double-count`; a clear ValueError about the duplicate
+slice when the chain is built is an accepted refusal of that input.
 """
 
 from __future__ import annotations
@@ -43,7 +52,12 @@ RULE = (
     'containing them under named, dict-form and default output keys (container types '
     'are compared, not only values). A failure is attributed to an input class only '
     'if the case (for values: the aggregate x slicer pair of every differing key) '
-    'structurally belongs to it and the failure has the form that class produces')
+    'structurally belongs to it and the failure has the form that class produces. '
+    'About an eighth of the cases are "chain" cases: a row / intra case with >= 2 '
+    'aggregates laid out as 2-3 separately constructed blocks (aggregates partitioned '
+    'at random, every block declares each slicer of the case with p = 0.65, names all '
+    'equal = fused / all different = stages / mixed), joined with chain() and observed '
+    'through __call__, iterate().agg_result and the data-source form')
 ASSUMPTIONS = [
     'batches are dicts of equal-length columns (lists or numpy arrays of ints / strs); '
     'in the row / intra families nested columns are only aggregated unsliced or under '
@@ -84,6 +98,13 @@ ASSUMPTIONS = [
     'comment in transform_test.test_aggregate_slice_fn_fanout_with_multiple_inputs says)',
     'float results (shipped aggregators) are compared with rtol 1e-9 / atol 1e-12; '
     'harness aggregators are exact (ints, Fractions, row lists)',
+    'chain cases: consecutive blocks of one name are ONE transform (chain() documents '
+    'the fusing): its aggregates are sliced by every slice declared in the group, a '
+    'slice declared by two of its blocks is still one slice; the aggregates of a stage '
+    'are sliced by the slices declared in that stage only; pre-aggregate operators and '
+    'the data source belong to the first block, every block holds >= 1 aggregate with '
+    'a named output key; if chain() refuses a slice declared twice in a fused group '
+    'with a ValueError naming the duplicate slice the case is skipped (counted)',
 ]
 REQUIRED = [
     'selftest_checks', 'directed_cases', 'obs:call', 'obs:iterate', 'obs:stopiter', 'obs:datasource',
@@ -103,11 +124,15 @@ REQUIRED = [
     'ext:shaped_list_tuple', 'ext:shaped_dict_tuple', 'ext:shaped_dict_namedtuple',
     'ext:shaped_ndarray', 'ext:shaped_ndarray2d', 'ext:shaped_dict_ndarray',
     'ext:shaped_self', 'ext:shaped_sliced', 'typed_result_checks',
+    'chain:cases', 'chain:fused', 'chain:staged', 'chain:dup_slicer_fused',
+    'chain:dup_slicer_staged', 'chain:blocks_2', 'chain:blocks_3',
+    'obs:chain_call', 'obs:chain_iterate', 'obs:chain_datasource',
 ]
 CHUNK_TIMEOUT_S = {'quick': 240, 'thorough': 3000}
 
 
 EXT_SHARE = 0.25  # share of cases drawn from the 'ext' input classes (c02_ext.py)
+CHAIN_SHARE = 0.13  # share of cases laid out as a chain of blocks (c02_chain.py)
 
 
 def plan(tier, seed):
@@ -513,6 +538,13 @@ def gen_case(rng):
   if r < EXT_SHARE:
     from vlib.oracles import c02_ext
     return c02_ext.gen_ext_case(rng)
+  if r < EXT_SHARE + CHAIN_SHARE:
+    from vlib.oracles import c02_chain
+    return c02_chain.gen_chain_case(rng, _gen_plain_case)
+  return _gen_plain_case(rng)
+
+
+def _gen_plain_case(rng):
   return gen_intra_case(rng) if rng.random() < 0.25 else gen_row_case(rng)
 
 
@@ -605,9 +637,90 @@ def _slicer_kind_of(case, key):
   return 'unknown-slicer'
 
 
+def check_chain_case(ctx, case):
+  """The pipeline of the case built as a chain of separately constructed blocks."""
+  from vlib.oracles import c02_chain as CH
+  from vlib.oracles import c02_ext as X
+  from vlib.oracles import c02_model as M
+  case = json.loads(json.dumps(case))
+  try:
+    want_full, stats = M.expected(case)
+    feats = X.features_of(case, want_full)
+    info = CH.layout_info(case)
+    want = CH.expected_for_layout(want_full, feats, info)
+  except Exception as e:  # pylint: disable=broad-exception-caught
+    ctx.inconclusive_case(f'oracle raised {type(e).__name__}: {e}', case)
+    return
+  nb = len(case['stream'])
+  n_sliced = sum(1 for k in want if k[1] is not None)
+  ctx.case(case, nb >= 2 and n_sliced >= 2)
+  ctx.count('chain:cases')
+  ctx.count(f'chain:blocks_{len(case["chain"]["blocks"])}')
+  ctx.count('chain:family_' + case.get('family', 'row'))
+  if info['fused']:
+    ctx.count('chain:fused')
+  if info['staged']:
+    ctx.count('chain:staged')
+  if info['dup_pairs']:
+    ctx.count('chain:dup_slicer_fused')
+  if info['dup_across_stages']:
+    ctx.count('chain:dup_slicer_staged')
+  if nb == 0:
+    ctx.count('chain:empty_stream')
+  layout = [[b['name'], b['aggs'], b['slicers']] for b in case['chain']['blocks']]
+  try:
+    CH.build(case, M)
+  except Exception as e:  # pylint: disable=broad-exception-caught
+    if info['dup_declared'] and CH.is_duplicate_slice_refusal(e):
+      # The input class 'slice declared twice in a fused group' is refused when the
+      # chain is built, with an error naming the duplicate slice: declared invalid.
+      ctx.count('chain:duplicate_slice_refused_at_build')
+      ctx.observe('chain_duplicate_slice_refused_at_build', f'{type(e).__name__}: {str(e)[:120]}')
+      return
+    ctx.violation('raised', dict(case, _obs='chain_build'),
+                  {'obs': 'chain_build', 'layout': layout,
+                   'error': f'{type(e).__name__}: {str(e)[:300]}'},
+                  mechanism='raised@chain_build')
+    return
+  for obs in CH.OBSERVATIONS:
+    ctx.count('obs:chain_' + obs)
+    tagged = dict(case, _obs='chain_' + obs)
+    try:
+      got = M.canon_result(CH.observe(obs, case, M), False)
+    except Exception as e:  # pylint: disable=broad-exception-caught
+      detail = {'obs': 'chain_' + obs, 'layout': layout,
+                'error': f'{type(e).__name__}: {str(e)[:300]}'}
+      if _is_empty_call_defect(obs, case, e):
+        _report_characterised(ctx, 'call-empty-input-iterator', 'raised_on_empty_stream',
+                              tagged, detail)
+      else:
+        ctx.violation('raised', tagged, detail, mechanism=f'raised@chain_{obs}')
+      continue
+    ctx.count('chain_slice_keys_checked', n_sliced)
+    ctx.count('chain_unsliced_checks', len(want) - n_sliced)
+    d = M.diff(want, got)
+    if not d:
+      continue
+    kind, key, w, g = d[0]
+    detail = {'obs': 'chain_' + obs, 'layout': layout, 'key': repr(key), 'want': w,
+              'got': g, 'n_diffs': len(d), 'kinds': sorted({x[0] for x in d})}
+    mech = CH.classify_diffs(feats, info, d)
+    if mech:
+      _report_characterised(ctx, mech, kind, tagged, detail)
+    else:
+      ctx.violation(kind, tagged, detail,
+                    mechanism=f'{kind}@chain_{obs}/{_slicer_kind_of(case, key)}')
+  if len(ctx.samples) < 3 and info['dup_pairs']:
+    ctx.sample({'aggs': case['aggs'], 'slicers': case['slicers'], 'chain': case['chain'],
+                'batches': [len(next(iter(b.values()))) for b in case['stream']]})
+
+
 def check_case(ctx, case, want_override=None, tag=None):
   from vlib.oracles import c02_ext as X
   from vlib.oracles import c02_model as M
+  if case.get('chain'):
+    check_chain_case(ctx, case)
+    return
   case = json.loads(json.dumps(case))
   try:
     want, stats = M.expected(case)
@@ -971,6 +1084,32 @@ def _directed():
   ] + _directed_ext(case, agg)
 
 
+def _directed_chain():
+  """Literal chain layouts: one per naming pattern, with and without a slice that two
+  blocks declare (see c02_chain.py)."""
+  from vlib.oracles import c02_chain as CH
+  base = CH.fallback_base()
+  base['aggs'].append({'fn': 'fracmean', 'in': ['x'], 'single': True, 'out': 'mean2',
+                       'noslice': False, 'opt': {}})
+  base['slicers'].append({'kind': 'within', 'keys': ['f0'], 'values': [0, 1],
+                          'name': 'in_f0'})
+  layouts = [
+      [['', [0], [0]], ['', [1, 2], [0]]],              # unnamed, same slice twice
+      [['blk', [0], [0, 1]], ['blk', [1], [1]], ['blk', [2], [0]]],
+      [['', [0, 1], [0]], ['', [2], [1]]],              # fused, disjoint slices
+      [['A', [0], [0]], ['B', [1, 2], [0]]],            # stages, same slice in both
+      [['A', [0], [0, 1]], ['B', [1], []], ['C', [2], [1]]],
+      [['', [0], [0]], ['', [1], [0, 1]], ['C', [2], [0]]],
+      [['A', [2], [1]], ['B', [0], [0]], ['B', [1], [1]]],
+  ]
+  out = []
+  for lay in layouts:
+    c = json.loads(json.dumps(base))
+    c['chain'] = {'blocks': [{'name': n, 'aggs': a, 'slicers': s} for n, a, s in lay]}
+    out.append(c)
+  return out
+
+
 def _directed_ext(case, agg):
   """One small case per 'ext' input class and sub-class (see c02_ext.py), so that
   every class is exercised whatever the seed."""
@@ -1084,7 +1223,7 @@ def run_chunk(ctx, spec):
     _run_selftest(ctx)
     return
   if spec['mode'] == 'directed':
-    for case in _directed():
+    for case in _directed() + _directed_chain():
       ctx.count('directed_cases')
       check_case(ctx, case)
     check_ndmask_cases(ctx, spec.get('rseed', 0))
